@@ -26,6 +26,191 @@ def unsigned_shift_sites(fn):
     return out
 
 
+def keyswitch_entry_by_interpretation(chk, v, e):
+    """lweKeySwitch(result, ks, sample) run on concrete data (nothing of the library is executed: the effect tree of the function is
+    evaluated): for (n, t, basebit) on a small grid and 8 mask vectors each, 32-bit unsigned arithmetic, the rows handed to lweSubTo
+    -- resolved to indices of ks0_raw through the constructor's tables (R5) -- must be, as a multiset and ignoring digit 0 (a trivial
+    zero, R3), the rows (i, j, digit_j) of the mask rounded with 2^(31 - t*basebit), after one lweNoiselessTrivial(result, sample->b, .).
+    A call of lweKeySwitchTranslate_fromArray with the key's own arguments contributes those rows by its specification (R1).
+    -> None or a witness"""
+    from sa import concrete, symexec
+    import itertools as _it
+    r, k, s = [p["n"] for p in e.params]
+    R_, K_, S_ = sym.sym(r), sym.sym(k), sym.sym(s)
+    effs = symexec.run_function(v, e, hooks=NOINLINE)[0]
+    M32 = (1 << 32) - 1
+    n_t, t_t, bb_t, base_t = P(k, "n"), P(k, "t"), P(k, "basebit"), P(k, "base")
+    masks_for = lambda n_, t_, bb: [[(0x9E3779B9 * (u + 1) * (i + 3) + (0xFFFFFFFF if u == 1 else 0) + (1 << max(0, 31 - t_ * bb)) * (u == 2)
+                                      - (u == 3) + (0x80000000 if u == 4 else 0)) & M32 for i in range(n_)] for u in range(8)]
+
+    class Run:
+        def __init__(self, n_, t_, bb, a):
+            self.n, self.t, self.bb, self.base, self.a = n_, t_, bb, 1 << bb, a
+            self.live, self.snap = {}, {}
+            self.rows, self.init, self.translated = [], [], 0
+
+        def segment(self, env=None):
+            self.snap = dict(self.live)
+
+        # ---- pointers: (array, offset) with array in {"raw", "a"}; rows of the key resolve to offsets of ks0_raw
+        def pval(self, t, env):
+            while t[0] == "cast":
+                t = t[2]
+            if t[0] == "var":
+                val = self.snap.get(t)
+                return val if isinstance(val, tuple) else None
+            if t == P(k, "ks0_raw"):
+                return ("raw", 0)
+            if t == P(s, "a"):
+                return ("a", 0)
+            if t[0] == "addr" and t[1][0] == "idx":
+                b_ = self.pval(t[1][1], env)
+                o_ = self.ival(t[1][2], env)
+                return None if b_ is None or o_ is None else (b_[0], b_[1] + o_)
+            if t[0] == "idx":                                   # a loaded pointer: ks->ks[i][j], ks->ks1_raw[q]
+                b_, o_ = t[1], self.ival(t[2], env)
+                if o_ is None:
+                    return None
+                if b_[0] == "idx" and b_[1] == P(k, "ks"):      # ks[i][j]
+                    i_ = self.ival(b_[2], env)
+                    return None if i_ is None else ("raw", (i_ * self.t + o_) * self.base)
+                if b_ == P(k, "ks1_raw"):
+                    return ("raw", o_ * self.base)
+                pb = self.pval(b_, env)
+                return None
+            return None
+
+        def ival(self, t, env):
+            """32-bit unsigned value of a scalar term"""
+            while t[0] == "cast":
+                t = t[2]
+            if t in env and isinstance(env[t], int):
+                return env[t] & M32 if env[t] >= 0 else env[t]
+            k_ = t[0]
+            if k_ == "int":
+                return t[1]
+            if k_ == "var":
+                val = self.snap.get(t)
+                return val if isinstance(val, int) else None
+            if t in (n_t,):
+                return self.n
+            if t == t_t:
+                return self.t
+            if t == bb_t:
+                return self.bb
+            if t == base_t:
+                return self.base
+            if k_ == "idx":
+                pb = self.pval(t[1], env)
+                o_ = self.ival(t[2], env)
+                if pb is not None and o_ is not None and pb[0] == "a" and 0 <= pb[1] + o_ < self.n:
+                    return self.a[pb[1] + o_]
+                return None
+            if k_ == "poly":
+                tot = 0
+                for mono, c in t[1]:
+                    val = c
+                    for a_ in mono:
+                        x = self.ival(a_, env)
+                        if x is None:
+                            return None
+                        val *= x
+                    tot += val
+                return tot
+            if k_ == "cond":
+                c = self.ival(t[1], env)
+                return None if c is None else self.ival(t[2] if c else t[3], env)
+            if k_ == "un":
+                x = self.ival(t[2], env)
+                return None if x is None else {"!": int(not x), "-": -x, "~": ~x & M32}.get(t[1])
+            if k_ == "call" and t[1] == "$loop_end":
+                sub = sym.subst(t, {n_t: I(self.n), t_t: I(self.t), bb_t: I(self.bb), base_t: I(self.base)})
+                return concrete.eval_term(sym.fold(sub), {})
+            if k_ == "op":
+                a_, b_ = self.ival(t[2], env), self.ival(t[3], env)
+                if a_ is None or b_ is None:
+                    return None
+                op = t[1]
+                if op in (">>", "&", "|", "^", "%", "/"):
+                    a_ &= M32                               # the rounded mask coefficient is a 32-bit unsigned quantity
+                try:
+                    return int({"<<": lambda: (a_ << b_), ">>": lambda: a_ >> b_, "&": lambda: a_ & b_, "|": lambda: a_ | b_, "^": lambda: a_ ^ b_,
+                                "%": lambda: a_ % b_, "/": lambda: a_ // b_, "<": lambda: a_ < b_, "<=": lambda: a_ <= b_, ">": lambda: a_ > b_,
+                                ">=": lambda: a_ >= b_, "==": lambda: (a_ - b_) & M32 == 0, "!=": lambda: (a_ - b_) & M32 != 0,
+                                "&&": lambda: bool(a_) and bool(b_), "||": lambda: bool(a_) or bool(b_)}[op]())
+                except (KeyError, ZeroDivisionError, ValueError):
+                    return None
+            return None
+
+        def handler(self, kind, x, env):
+            if kind == "cond":
+                c = self.ival(x["cond"], env)
+                return None if c is None else bool(c)
+            if kind == "local":
+                key_ = ("var", x["name"], x["id"])
+                t = x["new"] if isinstance(x.get("new"), tuple) else x.get("val")
+                val = self.ival(t, env) if isinstance(t, tuple) else None
+                if val is None and isinstance(t, tuple):
+                    val = self.pval(t, env)
+                self.live[key_] = val
+                return None
+            if kind == "store":
+                raise concrete.NotEvaluable("store to %s at line %s" % (sym.show(x["lv"])[:40], x.get("l")))
+            if kind in ("alloc", "delete"):
+                return None
+            if kind != "call":
+                raise concrete.NotEvaluable("%s at line %s" % (kind, x.get("l")))
+            nm, a = x["name"], x.get("args", [])
+            if x.get("noreturn"):
+                return None
+            if nm == "lweNoiselessTrivial":
+                self.init.append((a[0] == R_, a[1] == P(s, "b"), a[2] == P(k, "out_params"), len(self.rows) + self.translated))
+            elif nm == "lweSubTo":
+                pv = self.pval(a[1], env)
+                if a[0] != R_ or pv is None or pv[0] != "raw":
+                    raise concrete.NotEvaluable("lweSubTo(%s, %s) at line %s: row not resolved" % (sym.show(a[0])[:20], sym.show(a[1])[:60], x.get("l")))
+                self.rows.append(pv[1])
+            elif nm == "lweKeySwitchTranslate_fromArray":
+                if a != [R_, P(k, "ks"), P(k, "out_params"), P(s, "a"), n_t, t_t, bb_t]:
+                    raise concrete.NotEvaluable("translation called with other arguments than the key's own at line %s" % x.get("l"))
+                self.translated += 1
+            else:
+                raise concrete.NotEvaluable("call of %s at line %s" % (nm, x.get("l")))
+            return None
+    for n_, t_, bb in _it.product((1, 2, 3), (1, 2, 3, 4, 5), (1, 2, 3)):
+        if t_ * bb > 31:
+            continue
+        for a in masks_for(n_, t_, bb):
+            run_ = Run(n_, t_, bb, a)
+            try:
+                concrete.interpret(effs, {n_t: n_, t_t: t_, bb_t: bb, base_t: 1 << bb}, run_.handler, on_segment=run_.segment)
+            except concrete.NotEvaluable as ex_:
+                chk.broken("lweKeySwitch: not the known call sequence; by interpretation: %s" % ex_)
+            dims = "n = %d, t = %d, basebit = %d, a = [%s]" % (n_, t_, bb, ", ".join("0x%08x" % x for x in a))
+            if len(run_.init) != 1 or not all(run_.init[0][:3]) or run_.init[0][3] != 0:
+                return "with %s: the result is not initialised exactly once to the trivial sample (0, sample->b) before the rows are subtracted" % dims
+            want = []
+            off = 1 << (32 - (1 + bb * t_))
+            for i_ in range(n_):
+                ab = (a[i_] + off) & M32
+                for j_ in range(t_):
+                    d_ = (ab >> (32 - (j_ + 1) * bb)) & ((1 << bb) - 1)
+                    if d_:
+                        want.append((i_ * t_ + j_) * (1 << bb) + d_)
+            got = sorted(x for x in run_.rows if x % (1 << bb) != 0)
+            if run_.translated:
+                if run_.translated != 1 or got:
+                    return "with %s: the translation is applied %d times and %d further rows are subtracted" % (dims, run_.translated, len(got))
+                continue
+            if got != sorted(want):
+                extra, missing = sorted(set(got) - set(want)), sorted(set(want) - set(got))
+                name = lambda q: "ks[%d][%d][%d]" % (q // (1 << bb) // t_, q // (1 << bb) % t_, q % (1 << bb))
+                return "with %s: rows subtracted %s; the digits of the rounded mask select %s%s%s" % (
+                    dims, [name(q) for q in got][:6], [name(q) for q in sorted(want)][:6],
+                    "; not selected by any digit: %s" % name(extra[0]) if extra else "", "; never subtracted: %s" % name(missing[0]) if missing else "")
+    return None
+
+
 def run(chk):
     prog = Program()
     chk.explanation = (
@@ -256,16 +441,19 @@ def run(chk):
         triv = [p for p in eps if p["kind"] == "call" and p["name"] == "lweNoiselessTrivial"]
         tr = [p for p in eps if p["kind"] == "call" and p["name"] == "lweKeySwitchTranslate_fromArray"]
         if len(tr) != 1 or len(triv) != 1:
-            # the translation written out in the entry point (or split over helpers): its digit extraction is not the function R1
-            # decides, and the rule does not model it here -- undecided, not a violation
-            chk.broken("lweKeySwitch does not consist of one lweNoiselessTrivial and one lweKeySwitchTranslate_fromArray call (%d/%d): "
-                       "an entry point with its own digit extraction is not modelled" % (len(triv), len(tr)))
-        ok = len(triv) == 1 and len(tr) == 1 and triv[0]["line"] < tr[0]["line"] and \
-            triv[0]["args"][:3] == [sym.sym(r), P(s, "b"), P(k, "out_params")] and \
-            tr[0]["args"] == [sym.sym(r), P(k, "ks"), P(k, "out_params"), P(s, "a"), P(k, "n"), P(k, "t"), P(k, "basebit")]
-        chk.require(ok, "R4", "lweKeySwitch starts from (0, b) and translates by the rows selected from a with the key's own (n, t, basebit)",
-                    where=e.where, ok="lweNoiselessTrivial(result, sample->b) then translate(result, ks->ks, sample->a, ks->n, ks->t, ks->basebit)",
-                    bad="calls: %s" % [summ.show_piece(p) for p in eps if p["kind"] == "call"], variant=vn)
+            # the translation written out in the entry point (or split over helpers): decided by running the entry point on concrete
+            # masks for small (n, t, basebit) and comparing the rows it subtracts with the digits of the rounded mask
+            wit = keyswitch_entry_by_interpretation(chk, v, e)
+            chk.require(wit is None, "R4", "lweKeySwitch starts from (0, b) and translates by the rows selected from a with the key's own (n, t, basebit)",
+                        where=e.where, ok="interpreted for n in 1..3, t in 1..5, basebit in 1..3 on 8 masks each: result = (0, b) - sum of rows "
+                        "ks[i][j][digit_j(a_i + 2^(31 - t*basebit))] over the non-zero digits", bad=wit or "", variant=vn)
+        else:
+            ok = triv[0]["line"] < tr[0]["line"] and \
+                triv[0]["args"][:3] == [sym.sym(r), P(s, "b"), P(k, "out_params")] and \
+                tr[0]["args"] == [sym.sym(r), P(k, "ks"), P(k, "out_params"), P(s, "a"), P(k, "n"), P(k, "t"), P(k, "basebit")]
+            chk.require(ok, "R4", "lweKeySwitch starts from (0, b) and translates by the rows selected from a with the key's own (n, t, basebit)",
+                        where=e.where, ok="lweNoiselessTrivial(result, sample->b) then translate(result, ks->ks, sample->a, ks->n, ks->t, ks->basebit)",
+                        bad="calls: %s" % [summ.show_piece(p) for p in eps if p["kind"] == "call"], variant=vn)
         # R5 table layout
         ctor = [c2 for c2 in v.defined() if c2.get("record") == "LweKeySwitchKey" and c2.get("kind") == "ctor" and not c2.get("implicit")]
         if len(ctor) != 1:
